@@ -29,6 +29,13 @@ def PC.sec : PC → Option (NoteId × Option NoteId)
   | .fr pos n par _ _ => bif pos.inSec then some (n, par) else none
   | _ => none
 
+/-- The notes of the inner activations of `note_notify_child` (all but the outermost one), innermost
+    first: before each of these recursive calls the thread has incremented `child->disconnecting`,
+    and it decrements it when the call returns (repair of F7). -/
+def PC.inner : PC → List NoteId
+  | .chd _ stk _ => (stk.map Frame.note).dropLast
+  | _ => []
+
 /-- The note the thread is creating, as long as `nsync_note_new` has not reached the point where
     it links the note under its parent (note.c:185). -/
 def PC.earlyNew : PC → Option NoteId
@@ -77,7 +84,55 @@ theorem earlyNew_creating {pc : PC} {n : NoteId} (h : pc.earlyNew = some n) : pc
 @[simp] theorem sec_wt (p : WPos) (n : NoteId) (d : Dl) (r : Rid) : (PC.wt p n d r).sec = none := rfl
 @[simp] theorem earlyNew_wt (p : WPos) (n : NoteId) (d : Dl) (r : Rid) : (PC.wt p n d r).earlyNew = none := rfl
 
+@[simp] theorem inner_idle : PC.idle.inner = [] := rfl
+@[simp] theorem inner_newMalloc (p : Option NoteId) (d : Dl) : (PC.newMalloc p d).inner = [] := rfl
+@[simp] theorem inner_newRetNull (p : Option NoteId) : (PC.newRetNull p).inner = [] := rfl
+@[simp] theorem inner_dl (p : DPos) (n : NoteId) (nt : Dl) (k : DK) : (PC.dl p n nt k).inner = [] := rfl
+@[simp] theorem inner_nfy (p : NPos) (n : NoteId) (par : Option NoteId) (k : NK) : (PC.nfy p n par k).inner = [] := rfl
+@[simp] theorem inner_chd (p : CPos) (stk : List Frame) (top : Top) : (PC.chd p stk top).inner = (stk.map Frame.note).dropLast := rfl
+@[simp] theorem inner_newP (p : NewPos) (n par : NoteId) (d : Dl) : (PC.newP p n par d).inner = [] := rfl
+@[simp] theorem inner_retNew (n : NoteId) (par : Option NoteId) : (PC.retNew n par).inner = [] := rfl
+@[simp] theorem inner_retIs (n : NoteId) (b : Bool) : (PC.retIs n b).inner = [] := rfl
+@[simp] theorem inner_retNotify (n : NoteId) : (PC.retNotify n).inner = [] := rfl
+@[simp] theorem inner_retExpiry (n : NoteId) : (PC.retExpiry n).inner = [] := rfl
+@[simp] theorem inner_fr (p : FPos) (n : NoteId) (par : Option NoteId) (c : NoteId) (nx : Option NoteId) : (PC.fr p n par c nx).inner = [] := rfl
+@[simp] theorem inner_wt0 (p : W0Pos) (n : NoteId) (d : Dl) : (PC.wt0 p n d).inner = [] := rfl
+@[simp] theorem inner_wt (p : WPos) (n : NoteId) (d : Dl) (r : Rid) : (PC.wt p n d r).inner = [] := rfl
+
 /-! ### The phases at the targets of the control transfers -/
+
+@[simp] theorem inner_afterDeadlinePc (n : NoteId) (nt : Dl) (k : DK) :
+    (afterDeadlinePc n nt k).inner = [] := by
+  cases k <;> simp only [afterDeadlinePc] <;> (try split) <;> (try split) <;> rfl
+
+@[simp] theorem inner_afterNotifyPc (n : NoteId) (k : NK) : (afterNotifyPc n k).inner = [] := by
+  cases k with
+  | ofApi => rfl
+  | ofDeadline dk => exact inner_afterDeadlinePc n (some 0) dk
+
+@[simp] theorem inner_childReturnPc (f : Frame) (rest : List Frame) (top : Top) :
+    (childReturnPc f rest top).inner = (rest.map Frame.note).dropLast := by
+  unfold childReturnPc
+  cases rest with
+  | cons g gs => rfl
+  | nil => cases top.par <;> rfl
+
+@[simp] theorem inner_childLoopStartPc (cs : List NoteId) (f : Frame) (rest : List Frame)
+    (top : Top) :
+    (childLoopStartPc cs f rest top).inner = ((f :: rest).map Frame.note).dropLast := by
+  cases cs <;> rfl
+
+@[simp] theorem inner_childWakeNextPc (s : State) (f : Frame) (rest : List Frame) (top : Top) :
+    (childWakeNextPc s f rest top).inner = ((f :: rest).map Frame.note).dropLast := by
+  unfold childWakeNextPc
+  split
+  · rfl
+  · exact inner_childLoopStartPc _ f rest top
+
+@[simp] theorem inner_freeLoopStartPc (cs : List NoteId) (n : NoteId) (par : Option NoteId) :
+    (freeLoopStartPc cs n par).inner = [] := by
+  cases cs <;> rfl
+
 
 @[simp] theorem sec_afterDeadlinePc (n : NoteId) (nt : Dl) (k : DK) :
     (afterDeadlinePc n nt k).sec = none := by
@@ -90,10 +145,10 @@ theorem earlyNew_creating {pc : PC} {n : NoteId} (h : pc.earlyNew = some n) : pc
 
 theorem sec_childReturnPc (f : Frame) (rest : List Frame) (top : Top) :
     (childReturnPc f rest top).sec =
-      if childReturnDec rest top = true then none else some (top.n, top.par) := by
-  unfold childReturnPc childReturnDec
+      if rest = [] ∧ top.par = none then none else some (top.n, top.par) := by
+  unfold childReturnPc
   cases rest with
-  | cons g gs => rfl
+  | cons g gs => simp
   | nil => cases h : top.par <;> simp [NPos.inSec, h]
 
 @[simp] theorem sec_childLoopStartPc (cs : List NoteId) (f : Frame) (rest : List Frame)
@@ -150,74 +205,119 @@ theorem earlyNew_afterNotifyPc {n : NoteId} {k : NK} {c : NoteId}
 /-- Rewrite the program counter of the acting thread after the step (in the goal). -/
 macro "nrel_pc_simp_goal" : tactic => `(tactic| (
   simp only [setPc_pc, upd_same, afterDeadline_pc, afterNotify_pc, childReturn_pc,
-    childWakeNext_pc, freeLoopStart_pc, enterChild_pc, leave_pc, addUser_pc, markCalled_pc,
+    childWakeNext_pc, childScanStart_pc, freeLoopStart_pc, enterChild_pc, leave_pc, addUser_pc, markCalled_pc,
     markFreeing_pc, setAfter_pc, pushObs_pc, publish_pc, delUser_pc]))
 
-/-- An activation of `note_notify_child` returns: the outermost one, to a `notify` without parent,
-    ends the `disconnecting` section. -/
+/-- The shapes of the evolution of the `disconnecting` sections of the acting thread `a` (its
+    top-level section `sec`, the inner activations `inner`) and of the `disconnecting` counters. -/
+def SecStep (s s' : State) (a : Tid) : Prop :=
+  ((s'.pc a).sec = (s.pc a).sec ∧ (s'.pc a).inner = (s.pc a).inner ∧
+    ∀ n, (s'.notes n).disconnecting = (s.notes n).disconnecting) ∨
+  (∃ m par, (s.pc a).sec = none ∧ (s'.pc a).sec = some (m, par) ∧
+    (s.pc a).inner = [] ∧ (s'.pc a).inner = [] ∧
+    (s.notes m).parent = par ∧ s'.users = s.users ∧ ForestSame s s' ∧
+    ∀ n, (s'.notes n).disconnecting =
+      if n = m then (s.notes n).disconnecting + 1 else (s.notes n).disconnecting) ∨
+  (∃ m par, (s.pc a).sec = some (m, par) ∧ (s'.pc a).sec = none ∧
+    (s.pc a).inner = [] ∧ (s'.pc a).inner = [] ∧ s'.users = s.users ∧
+    (par = none ∨ (∃ nk, s.pc a = .nfy .unlockPRet m par nk) ∨
+      (∃ c nx, s.pc a = .fr .unlockPRet m par c nx)) ∧
+    ∀ n, (s'.notes n).disconnecting =
+      if n = m then (s.notes n).disconnecting - 1 else (s.notes n).disconnecting) ∨
+  (∃ k, (s.notes k).allocated = false ∧ (s'.pc a).sec = (s.pc a).sec ∧
+    (s'.pc a).inner = (s.pc a).inner ∧ s'.users = s.users ∧
+    (∀ n, n ≠ k → (s'.notes n).disconnecting = (s.notes n).disconnecting) ∧
+    (s'.notes k).disconnecting = 0) ∨
+  (∃ c, (s'.pc a).sec = (s.pc a).sec ∧ (s'.pc a).inner = c :: (s.pc a).inner ∧
+    s'.users = s.users ∧ ForestSame s s' ∧ (s.notes c).disconnecting = 0 ∧
+    ∀ n, (s'.notes n).disconnecting =
+      if n = c then (s.notes n).disconnecting + 1 else (s.notes n).disconnecting) ∨
+  (∃ c, (s'.pc a).sec = (s.pc a).sec ∧ (s.pc a).inner = c :: (s'.pc a).inner ∧
+    s'.users = s.users ∧ ((s.notes c).disconnecting = 1 → (s'.notes c).parent = none) ∧
+    ∀ n, (s'.notes n).disconnecting =
+      if n = c then (s.notes n).disconnecting - 1 else (s.notes n).disconnecting)
+
+/-- An activation of `note_notify_child` returns: an inner one ends its `child->disconnecting`
+    bracket, the outermost one, to a `notify` without parent, ends the `disconnecting` section. -/
 theorem sec_childReturn_cases (s s1 : State) (t : Tid) (pos : CPos) (f : Frame)
     (rest : List Frame) (top : Top) (hpc : s.pc t = .chd pos (f :: rest) top)
     (hd : ∀ n, (s1.notes n).disconnecting = (s.notes n).disconnecting)
-    (hu : s1.users = s.users) :
-    (((childReturn s1 t f rest top).pc t).sec = (s.pc t).sec ∧
-      ∀ n, ((childReturn s1 t f rest top).notes n).disconnecting = (s.notes n).disconnecting) ∨
-    (∃ m par, (s.pc t).sec = some (m, par) ∧ ((childReturn s1 t f rest top).pc t).sec = none ∧
-      (childReturn s1 t f rest top).users = s.users ∧
-      ∀ n, ((childReturn s1 t f rest top).notes n).disconnecting =
-        if n = m then (s.notes n).disconnecting - 1 else (s.notes n).disconnecting) := by
-  by_cases hdec : childReturnDec rest top = true
-  · right
-    refine ⟨top.n, top.par, by rw [hpc]; rfl, ?_, by simpa using hu, fun n => ?_⟩
-    · simp only [childReturn_pc, upd_same]
-      rw [sec_childReturnPc, if_pos hdec]
-    · simp only [childReturn_f_disconnecting, hdec, true_and, hd]
-  · left
-    refine ⟨?_, fun n => ?_⟩
-    · simp only [childReturn_pc, upd_same]
-      rw [sec_childReturnPc, if_neg hdec, hpc]; rfl
-    · simp only [childReturn_f_disconnecting, hdec, false_and, if_false, hd]
-      simp
+    (hu : s1.users = s.users) : SecStep s (childReturn s1 t f rest top) t := by
+  cases rest with
+  | cons g gs =>
+    -- an inner activation returns
+    right; right; right; right; right
+    refine ⟨f.note, ?_, ?_, by simpa using hu, ?_, fun n => ?_⟩
+    · simp only [childReturn_pc, upd_same, sec_childReturnPc, hpc]; simp
+    · simp only [childReturn_pc, upd_same, inner_childReturnPc, hpc, inner_chd, List.map_cons,
+        List.dropLast_cons_cons]
+    · intro h1
+      simp [childUnlinks, frameParent, hd, h1]
+    · simp only [childReturn_f_disconnecting, childReturnDec, Option.some.injEq, hd]
+      by_cases hn : n = f.note
+      · subst hn; simp
+      · rw [if_neg (fun h => hn h.symm), if_neg hn]
+  | nil =>
+    cases hp : top.par with
+    | none =>
+      right; right; left
+      refine ⟨top.n, top.par, by rw [hpc]; rfl, ?_, by rw [hpc]; simp, by simp,
+        by simpa using hu, Or.inl hp, fun n => ?_⟩
+      · simp only [childReturn_pc, upd_same, sec_childReturnPc, hp]; simp
+      · simp only [childReturn_f_disconnecting, childReturnDec, hp, Option.some.injEq, hd]
+        by_cases hn : n = top.n
+        · subst hn; simp
+        · rw [if_neg (fun h => hn h.symm), if_neg hn]
+    | some p =>
+      left
+      refine ⟨?_, by rw [hpc]; simp, fun n => ?_⟩
+      · simp only [childReturn_pc, upd_same, sec_childReturnPc, hp, hpc]; simp [hp]
+      · simp only [childReturn_f_disconnecting, childReturnDec, hp, hd]; simp
 
 /-- Close the "unchanged" alternative of `step_sec`. -/
 macro "nrel_sec_same" : tactic => `(tactic| (
   left
-  refine ⟨?_, fun n => ?_⟩
+  refine ⟨?_, ?_, fun n => ?_⟩
   · nrel_pc_simp_goal
     rw [‹State.pc _ _ = _›]
     simp [NPos.inSec, FPos.inSec]
+  · nrel_pc_simp_goal
+    rw [‹State.pc _ _ = _›]
+    simp
   · simp))
 
-/-- How the `disconnecting` section of the acting thread and the `disconnecting` counters
-    evolve. -/
+/-- How the `disconnecting` sections of the acting thread and the `disconnecting` counters
+    evolve.  (`hst`: the activation stack of a thread inside `note_notify_child` is not empty,
+    `LClaim`.) -/
 theorem step_sec {s s' : State} {e : Event} (hs : step s e = .ok s') (a : Tid)
-    (ha : e.actor = some a) :
-    ((s'.pc a).sec = (s.pc a).sec ∧
-      ∀ n, (s'.notes n).disconnecting = (s.notes n).disconnecting) ∨
-    (∃ m par, (s.pc a).sec = none ∧ (s'.pc a).sec = some (m, par) ∧
-      (s.notes m).parent = par ∧ s'.users = s.users ∧ ForestSame s s' ∧
-      ∀ n, (s'.notes n).disconnecting =
-        if n = m then (s.notes n).disconnecting + 1 else (s.notes n).disconnecting) ∨
-    (∃ m par, (s.pc a).sec = some (m, par) ∧ (s'.pc a).sec = none ∧ s'.users = s.users ∧
-      ∀ n, (s'.notes n).disconnecting =
-        if n = m then (s.notes n).disconnecting - 1 else (s.notes n).disconnecting) ∨
-    (∃ k, (s.notes k).allocated = false ∧ (s'.pc a).sec = (s.pc a).sec ∧ s'.users = s.users ∧
-      (∀ n, n ≠ k → (s'.notes n).disconnecting = (s.notes n).disconnecting) ∧
-      (s'.notes k).disconnecting = 0) := by
+    (ha : e.actor = some a)
+    (hst : ∀ pos top, s.pc a ≠ .chd pos [] top) : SecStep s s' a := by
+  unfold SecStep
   cases e
   all_goals step_cases hs
   all_goals simp only [Event.actor, Option.some.injEq, reduceCtorEq] at ha
   all_goals (try subst ha)
-  all_goals (try (left; exact ⟨rfl, fun _ => rfl⟩))
+  all_goals (try (left; exact ⟨rfl, rfl, fun _ => rfl⟩))
   all_goals (try (nrel_sec_same; done))
+  -- the childReturn cases
+  all_goals (try (
+    have hpc := ‹s.pc _ = PC.chd _ _ _›
+    exact sec_childReturn_cases s _ _ _ _ _ _ hpc (fun n => by first | rfl | simp)
+      (by first | rfl | simp)))
   all_goals (repeat' split)
   all_goals (try (nrel_sec_same; done))
+  all_goals (try (
+    have hpc := ‹s.pc _ = PC.chd _ _ _›
+    exact sec_childReturn_cases s _ _ _ _ _ _ hpc (fun n => by first | rfl | simp)
+      (by first | rfl | simp)))
   -- `n->disconnecting++`
   all_goals (try (
     have hpc := ‹s.pc _ = PC.nfy _ _ _ _›
     right; left
     apply Exists.intro; apply Exists.intro
-    refine ⟨by rw [hpc]; rfl, ?_, ?_, ?_, fun j => ⟨?_, ?_⟩, fun n => ?_⟩
+    refine ⟨by rw [hpc]; rfl, ?_, by rw [hpc]; rfl, ?_, ?_, ?_, fun j => ⟨?_, ?_⟩, fun n => ?_⟩
     · nrel_pc_simp_goal; simp only [sec_nfy, sec_chd, NPos.inSec, cond_true]; rfl
+    · nrel_pc_simp_goal; simp
     · assumption
     · simp
     · simp
@@ -228,34 +328,48 @@ theorem step_sec {s s' : State} {e : Event} (hs : step s e = .ok s') (a : Tid)
     have hpc := ‹s.pc _ = PC.fr FPos.lockRet _ _ _ _›
     right; left
     apply Exists.intro; apply Exists.intro
-    refine ⟨by rw [hpc]; rfl, ?_, ?_, ?_, fun j => ⟨?_, ?_⟩, fun n => ?_⟩
+    refine ⟨by rw [hpc]; rfl, ?_, by rw [hpc]; rfl, ?_, ?_, ?_, fun j => ⟨?_, ?_⟩, fun n => ?_⟩
     · nrel_pc_simp_goal; simp only [sec_fr, sec_freeLoopStartPc, FPos.inSec, cond_true]; rfl
+    · nrel_pc_simp_goal; simp
     · assumption
     · simp
     · simp
     · simp
     · simp
     done))
-  -- the childReturn cases (with or without the decrement)
-  all_goals (try (
-    have hpc := ‹s.pc _ = PC.chd _ _ _›
-    refine Or.elim (sec_childReturn_cases s _ _ _ _ _ _ hpc ?_ ?_) Or.inl
-      (fun h => Or.inr (Or.inr (Or.inl h)))
-    · intro n; first | rfl | simp
-    · first | rfl | simp))
   -- `n->disconnecting--`
   all_goals (try (
     have hpc := ‹s.pc _ = _›
     right; right; left
-    refine ⟨_, _, by rw [hpc]; rfl, ?_, ?_, fun n => ?_⟩
+    refine ⟨_, _, by rw [hpc]; rfl, ?_, by rw [hpc]; rfl, ?_, ?_, ?_, fun n => ?_⟩
     · nrel_pc_simp_goal; simp [NPos.inSec, FPos.inSec]
+    · nrel_pc_simp_goal; simp
     · simp
+    · first
+        | (left; rfl)
+        | (right; left; exact ⟨_, hpc⟩)
+        | (right; right; exact ⟨_, _, hpc⟩)
     · simp
+    done))
+  -- `child->disconnecting++`: a new activation
+  all_goals (try (
+    have hpc := ‹s.pc _ = PC.chd (CPos.lockChildRet _) _ _›
+    have hd0 := ‹(s.notes _).disconnecting = 0›
+    right; right; right; right; left
+    refine ⟨_, ?_, ?_, by simp, fun j => ⟨by simp, by simp⟩, hd0, fun n => by simp⟩
+    · nrel_pc_simp_goal; rw [hpc]; rfl
+    · nrel_pc_simp_goal
+      rw [hpc]
+      rename_i stk _ _ _ _
+      cases stk with
+      | nil => exact absurd hpc (hst _ _)
+      | cons g gs => simp
     done))
   -- malloc
   · have hfresh := ‹(s.notes _).allocated = false›
-    right; right; right
-    refine ⟨_, hfresh, ?_, by simp, fun n hn => ?_, ?_⟩
+    right; right; right; left
+    refine ⟨_, hfresh, ?_, ?_, by simp, fun n hn => ?_, ?_⟩
+    · nrel_pc_simp_goal; rw [‹s.pc _ = _›]; rfl
     · nrel_pc_simp_goal; rw [‹s.pc _ = _›]; rfl
     · simp [hn]
     · simp [NoteRec.blank]
